@@ -23,7 +23,7 @@ func runC07(p *Program, r *Report) {
 	for _, m := range []struct {
 		r string
 		n int
-	}{{"C07.R1", 10}, {"C07.R2", 2}, {"C07.R3", 7}, {"C07.R4", 1}} {
+	}{{"C07.R1", 10}, {"C07.R2", 2}, {"C07.R3", 8}, {"C07.R4", 1}} {
 		r.Min(m.r, m.n)
 	}
 	checkAliasReset(p, r, "C07.R4")
@@ -294,7 +294,7 @@ func checkClone(p *Program, r *Report, pv *Prov) {
 	}
 	// guards: receiver and every member not executed
 	pe := newPathExplorer(p, fn)
-	okRecv, okMember := true, true
+	okRecv, okMember, okSet := true, true, true
 	n := 0
 	for _, pth := range pe.Paths() {
 		v, zero, ok := pth.ResultValue(1)
@@ -306,6 +306,13 @@ func checkClone(p *Program, r *Report, pv *Prov) {
 			return val && strings.HasPrefix(name, "(== param:t.escapeErr nil)")
 		}) {
 			okRecv = false
+		}
+		// the per-template marks can be lost (New with the name of an executed template replaces it by
+		// a fresh one): the freeze flag of the name space is the only record that the trees were rewritten
+		if !pth.HasMatching(func(name string, val bool) bool {
+			return !val && strings.Contains(strings.Split(name, "@")[0], ".escaped")
+		}) {
+			okSet = false
 		}
 	}
 	// member guard: the Template literal in the loop is dominated by src != nil ∧ src.escapeErr == nil
@@ -332,5 +339,6 @@ func checkClone(p *Program, r *Report, pv *Prov) {
 		}
 	}
 	r.Check(okRecv && n > 0, "C07.R3", cn+"#refuses-executed-receiver", p.Pos(fn.Pos()), "succeeds only if the receiver has not been executed (escapeErr == nil)", "Clone can succeed for a template that has already been executed")
+	r.Check(okSet && n > 0, "C07.R3", cn+"#refuses-executed-set", p.Pos(fn.Pos()), "succeeds only while the name space's freeze flag (escaped) is unset", "Clone never consults the freeze flag of the name space: after root.New(\"root\") replaced the executed template by a fresh one, a set whose trees were already rewritten is cloned and the clone sanitizes twice")
 	r.Check(okMember, "C07.R3", cn+"#refuses-executed-member", p.Pos(fn.Pos()), "a member is cloned only if it exists in the original set and has not been executed", "Clone copies a member that has already been executed (and rewritten)")
 }
